@@ -323,8 +323,12 @@ def _has(t, *tokens):
             have.add("iter")  # a loop over [(ref..), (est..)] unrolled into explicit per-annotation code reads the parameter itself
         elif x.op == "attr":
             have.add("a:" + x.a[1])
+            if x.a[1] == "shape":
+                have.add("f:builtins.len")
         elif x.op == "call":
             have.add("f:" + str(call_name(x)))
+            if call_name(x) == "builtins.len":
+                have.add("a:shape")  # len(x) is x.shape[0]: the two spellings of a length are one token
         elif x.op == "const":
             v = x.a[0]
             if isinstance(v, float) and v == int(v):
